@@ -113,8 +113,14 @@ func gen(tier string) []proto.Item {
 			form string
 		}{{1, vi.TEForm}, {3, vi.DestForm}} {
 			for _, field := range simnet.Fields(vi.Kind, g.form) {
-				for _, op := range []string{"+256", "-256", "swap", "zero", "other"} {
+				for _, op := range []string{"+256", "-256", "swap", "zero", "other", "+1"} {
 					if vi.Relaxed && (field == "q.src" || field == "q.sport") {
+						continue
+					}
+					if op == "+1" && !vi.Parallel {
+						// +1 on a per-probe identifier names the next probe, which is not yet sent when the packet arrives (or never
+						// sent, after the destination answered): the parallel engines read it at once and must skip it; the serial
+						// engine would only read it after sending that probe
 						continue
 					}
 					s := base(v, false)
